@@ -2,8 +2,8 @@
 from harness import common as C
 
 PROPERTY = "C15"
-LEAN_TARGETS = ["VectorModel.Props.C15"]
-THEOREM_FILES = ["VectorModel/Props/C15.lean"]
+LEAN_TARGETS = ["VectorModel.Props.C15", "VectorModel.Props.MethodState"]
+THEOREM_FILES = ["VectorModel/Props/C15.lean", "VectorModel/Props/MethodState.lean"]
 NOT_COVERED = ["object identity itself (checked on the real objects by the harness: id() and type() before/after every step)",
                "the SymPy backend's own _replace_data (mirror of the object backend; not separately driven)"]
 
